@@ -210,6 +210,66 @@ func mapRangeIsCollectSort(fn *ssa.Function, rg *ssa.Range) bool {
 	return false
 }
 
+func (w *World) lintOne(fn *ssa.Function) (hits []lintHit, mapRanges []lintHit, ok bool) {
+	return w.lintFn(fn, nil)
+}
+
+func (w *World) lintFn(fn *ssa.Function, path []string) (hits []lintHit, mapRanges []lintHit, ok bool) {
+	if len(fn.Blocks) == 0 {
+		return nil, nil, false
+	}
+	w.FuncsAnalysed[fn] = true
+	fk := FuncKey(fn)
+	hit := func(what string, in ssa.Instruction) {
+		hits = append(hits, lintHit{fk, what, w.posOr(in.Pos(), fn), path})
+	}
+	for _, b := range fn.Blocks {
+		for _, in := range b.Instrs {
+			switch x := in.(type) {
+			case *ssa.Go:
+				hit("go statement", in)
+			case *ssa.Select:
+				if len(x.States) > 1 || !x.Blocking {
+					hit("select statement", in)
+				}
+			case *ssa.BinOp:
+				if isFloat(x.X.Type()) || isFloat(x.Y.Type()) {
+					switch x.Op {
+					case token.EQL, token.NEQ, token.LSS, token.LEQ, token.GTR, token.GEQ:
+						hit("floating-point comparison", in)
+					default:
+						hit("floating-point arithmetic", in)
+					}
+				}
+			case *ssa.Convert:
+				if isFloat(x.Type()) && !isFloat(x.X.Type()) {
+					hit("conversion to floating point", in)
+				}
+			case *ssa.Range:
+				if _, ok := x.X.Type().Underlying().(*types.Map); ok {
+					what := "range over map " + types.TypeString(x.X.Type(), func(p *types.Package) string { return p.Name() })
+					if mapRangeIsCollectSort(fn, x) {
+						mapRanges = append(mapRanges, lintHit{fk, what + " [collect-and-sort]", w.posOr(x.Pos(), fn), path})
+					} else {
+						mapRanges = append(mapRanges, lintHit{fk, what, w.posOr(x.Pos(), fn), path})
+					}
+				}
+			case ssa.CallInstruction:
+				n := CalleeName(x.Common())
+				for _, f := range forbiddenCalls {
+					if n == f {
+						hit("call "+n, in)
+					}
+				}
+				if strings.HasPrefix(n, "math/rand.") || strings.HasPrefix(n, "math/rand/v2.") || strings.HasPrefix(n, "crypto/rand.") {
+					hit("call "+n, in)
+				}
+			}
+		}
+	}
+	return hits, mapRanges, true
+}
+
 func (w *World) DeterminismLint(roots []*ssa.Function) (hits []lintHit, mapRanges []lintHit, nFuncs int) {
 	reach := w.ReachableFrom(roots, nil)
 	for fn, path := range reach {
@@ -223,55 +283,9 @@ func (w *World) DeterminismLint(roots []*ssa.Function) (hits []lintHit, mapRange
 			continue
 		}
 		nFuncs++
-		w.FuncsAnalysed[fn] = true
-		fk := FuncKey(fn)
-		hit := func(what string, in ssa.Instruction) {
-			hits = append(hits, lintHit{fk, what, w.posOr(in.Pos(), fn), path})
-		}
-		for _, b := range fn.Blocks {
-			for _, in := range b.Instrs {
-				switch x := in.(type) {
-				case *ssa.Go:
-					hit("go statement", in)
-				case *ssa.Select:
-					if len(x.States) > 1 || !x.Blocking {
-						hit("select statement", in)
-					}
-				case *ssa.BinOp:
-					if isFloat(x.X.Type()) || isFloat(x.Y.Type()) {
-						switch x.Op {
-						case token.EQL, token.NEQ, token.LSS, token.LEQ, token.GTR, token.GEQ:
-							hit("floating-point comparison", in)
-						default:
-							hit("floating-point arithmetic", in)
-						}
-					}
-				case *ssa.Convert:
-					if isFloat(x.Type()) && !isFloat(x.X.Type()) {
-						hit("conversion to floating point", in)
-					}
-				case *ssa.Range:
-					if _, ok := x.X.Type().Underlying().(*types.Map); ok {
-						what := "range over map " + types.TypeString(x.X.Type(), func(p *types.Package) string { return p.Name() })
-						if mapRangeIsCollectSort(fn, x) {
-							mapRanges = append(mapRanges, lintHit{fk, what + " [collect-and-sort]", w.posOr(x.Pos(), fn), path})
-						} else {
-							mapRanges = append(mapRanges, lintHit{fk, what, w.posOr(x.Pos(), fn), path})
-						}
-					}
-				case ssa.CallInstruction:
-					n := CalleeName(x.Common())
-					for _, f := range forbiddenCalls {
-						if n == f {
-							hit("call "+n, in)
-						}
-					}
-					if strings.HasPrefix(n, "math/rand.") || strings.HasPrefix(n, "math/rand/v2.") || strings.HasPrefix(n, "crypto/rand.") {
-						hit("call "+n, in)
-					}
-				}
-			}
-		}
+		h, m, _ := w.lintFn(fn, path)
+		hits = append(hits, h...)
+		mapRanges = append(mapRanges, m...)
 	}
 	sort.Slice(hits, func(i, j int) bool { return hits[i].Fn+hits[i].What < hits[j].Fn+hits[j].What })
 	sort.Slice(mapRanges, func(i, j int) bool { return mapRanges[i].Fn+mapRanges[i].What < mapRanges[j].Fn+mapRanges[j].What })
